@@ -12,7 +12,7 @@ import (
 func init() {
 	register(&propDef{
 		ID:       "C05",
-		Explain:  "Decided (structural necessary conditions): ONCE arm = goroutine that runs the walk and then closes the queue unconditionally, in that order; the sender ends the RPC successfully (errC <- nil) exactly when the queue reports closed, and the queue reports closed only when empty (drain-before-closed, evaluated at Len 0/1); POLL = one initial walk, then on every received trigger exactly one further walk, io.EOF ends cleanly, other errors are returned; one sync marker per walk, after the last Query/Insert, none after a failed step; the walk visitor inserts every visited leaf while no error is pending; ONCE/POLL never register with the streaming match tree; the snapshot path follows the CompletePath decision table (origin in prefix / path / both / neither); the all-targets walk does not re-acquire the cache lock. Also decided: the send timer is armed only around a Send (stopped after every Send and at every wait for the next item), so an idle POLL stream is not ended by a stale timer. Round-3 additions: wake-up token / wait set of the queue (borrowed from C11); the duplicate count is written into a clone, never into the cached notification (borrowed from C08). Round-4 additions: every subscription of the request is walked before the marker (replayed with two subscriptions, also prefix-only ones); the query descent's per-node table with two children per branch and a child literally named * (C09.query-table, borrowed).",
+		Explain:  "Decided (structural necessary conditions): ONCE arm = goroutine that runs the walk and then closes the queue unconditionally, in that order; the sender ends the RPC successfully (errC <- nil) exactly when the queue reports closed, and the queue reports closed only when empty (drain-before-closed, evaluated at Len 0/1); POLL = one initial walk, then on every received trigger exactly one further walk, io.EOF ends cleanly, other errors are returned; one sync marker per walk, after the last Query/Insert, none after a failed step; the walk visitor inserts every visited leaf while no error is pending; ONCE/POLL never register with the streaming match tree; the snapshot path follows the CompletePath decision table (origin in prefix / path / both / neither); the all-targets walk does not re-acquire the cache lock. Also decided: the send timer is armed only around a Send (stopped after every Send and at every wait for the next item), so an idle POLL stream is not ended by a stale timer. Round-3 additions: wake-up token / wait set of the queue (borrowed from C11); the duplicate count is written into a clone, never into the cached notification (borrowed from C08). Round-4 additions: every subscription of the request is walked before the marker (replayed with two subscriptions, also prefix-only ones); the query descent's per-node table with two children per branch and a child literally named * (C09.query-table, borrowed). Round-6 addition: nothing but the allowed writers stores into a node's content - a delete does not nil the value of a node whose handle a pending ONCE/POLL response still holds.",
 		NotCover: "exactness of ctree.Query's matching (C09) and of the values observed during the call; concurrent writers",
 		Run:      runC05,
 	})
